@@ -291,6 +291,16 @@ func (eval Evaluator) matchScaleThenEvaluateInPlace(level int, el0 *rlwe.Ciphert
 
 	r0, r1, _ := eval.matchScalesBinary(el0.Scale.Uint64(), el1.Scale.Uint64())
 
+	// Avoids overwriting the second operand before it is read if it is also the output
+	if el1 == elOut.El() {
+		tmp := &rlwe.Element[ring.Poly]{Value: make([]ring.Poly, len(el1.Value)), MetaData: el1.MetaData}
+		for i := range el1.Value {
+			eval.buffQ[i].CopyLvl(level, el1.Value[i])
+			tmp.Value[i] = eval.buffQ[i]
+		}
+		el1 = tmp
+	}
+
 	for i := range el0.Value {
 		eval.parameters.RingQ().AtLevel(level).MulScalar(el0.Value[i], r0, elOut.Value[i])
 	}
